@@ -1612,7 +1612,12 @@ sub_mul_int(Type& to, const Type x, const Type y, Rounding_Dir dir) {
     }
     return assign_nan<To_Policy>(to, V_UNKNOWN_NEG_OVERFLOW);
   case 1:
-    if (to <= 0) {
+    // Here x*y >= max + 1: with to == 0 the result -(x*y) is certainly
+    // below min only if -(max + 1) < min.
+    if (to < 0
+        || (to == 0
+            && (Extended_Int<To_Policy, Type>::min
+                + Extended_Int<To_Policy, Type>::max >= 0))) {
       return set_neg_overflow_int<To_Policy>(to, dir);
     }
     return assign_nan<To_Policy>(to, V_UNKNOWN_POS_OVERFLOW);
